@@ -624,6 +624,7 @@ class Session(Family):
 # live: real TLS on loopback, real time
 # ----------------------------------------------------------------------------
 class Live(Family):
+    realtime = True     # runs on the wall clock (sockets, threads): a failure is re-run once before it counts (core.run_family)
     name = "live"
     quick_n = 48
     thorough_n = 600
